@@ -189,6 +189,12 @@ fn render_cfg(t: &TableDef, schema: &[TableDef], cfg: &ExportCfg) -> Result<Stri
     timed(move || Ok(vespertide_exporter::seaorm::render_entity_with_config(&t, &schema, &cfg.seaorm, &cfg.prefix)))
 }
 
+fn sea_o17(d: &seaparse::Decl, names: &[String], text: &str) -> Vec<String> {
+    let mut o = seaparse::oracle(d, names);
+    o.extend(seaparse::text_oracle(text));
+    o
+}
+
 /// the lines of a SeaORM entity that depend on the export configuration, in output order
 fn cfg_lines(text: &str) -> Vec<String> {
     text.split('\n')
@@ -344,6 +350,12 @@ fn cmd_gen(args: &[String]) {
             sets.push(("default-shapes".to_string(), m));
         }
     }
+    // free text (descriptions, comments) with line breaks, quotes, backslashes ...
+    if arg(args, "--text-shapes", "1") == "1" {
+        for m in advgen::gen_text_sets() {
+            sets.push(("text-shapes".to_string(), m));
+        }
+    }
     // relation-enum collisions on tables whose name is made of separators / digits / symbols only
     if arg(args, "--relenum", "1") == "1" {
         for m in advgen::gen_relenum_sets() {
@@ -403,7 +415,7 @@ fn cmd_gen(args: &[String]) {
                 let (r, how) = render_in_child(&cases_path, i, j, cap_ms, false);
                 match r {
                     Some(text) => match seaparse::parse(&text) {
-                        Ok(d) => (format!("(SeaOk {})", d.gs()), json!({"status": "ok", "subprocess": how, "o17": seaparse::oracle(&d, &names)}), Some(text)),
+                        Ok(d) => (format!("(SeaOk {})", d.gs()), json!({"status": "ok", "subprocess": how, "o17": sea_o17(&d, &names, &text)}), Some(text)),
                         Err(e) => ("SeaPanic".to_string(), json!({"status": "unparsed", "why": e}), Some(text)),
                     },
                     None => ("SeaDiverged".to_string(), json!({"status": "diverged", "subprocess": how}), None),
@@ -411,7 +423,7 @@ fn cmd_gen(args: &[String]) {
             } else {
                 match render(Orm::SeaOrm, t, m) {
                     Ok(text) => match seaparse::parse(&text) {
-                        Ok(d) => (format!("(SeaOk {})", d.gs()), json!({"status": "ok", "o17": seaparse::oracle(&d, &names)}), Some(text)),
+                        Ok(d) => (format!("(SeaOk {})", d.gs()), json!({"status": "ok", "o17": sea_o17(&d, &names, &text)}), Some(text)),
                         Err(e) => ("SeaPanic".to_string(), json!({"status": "unparsed", "why": e}), Some(text)),
                     },
                     Err(e) if e == "timeout" => ("SeaDiverged".to_string(), json!({"status": "diverged", "subprocess": format!("in-process render thread: no result after {} ms", RENDER_CAP_MS)}), None),
@@ -664,7 +676,7 @@ fn cmd_gen(args: &[String]) {
         }
     }
     // FK-shaped sets (including cyclic ones) also go through every stage
-    for (tag, m) in sets.iter().filter(|(t, _)| !t.starts_with("corpus:") && t != "import-pairs" && t != "name-shapes" && t != "default-shapes").take(nevo + n_chain_sets) {
+    for (tag, m) in sets.iter().filter(|(t, _)| !t.starts_with("corpus:") && t != "import-pairs" && t != "name-shapes" && t != "default-shapes" && t != "text-shapes").take(nevo + n_chain_sets) {
         push16(&mut c16, &format!("models:{}", tag), m, &vec![], true);
     }
     std::fs::write(outdir.join("c16cases.jsonl"), c16).unwrap();
